@@ -103,7 +103,7 @@ func (db *Database) SearchWithPipelineOptions(query string, options SearchOption
 
 // sortAndLimitResults sorts results by score and applies limit
 func (db *Database) sortAndLimitResults(results []SearchResult, limit int) []SearchResult {
-	sort.Slice(results, func(i, j int) bool {
+	sort.SliceStable(results, func(i, j int) bool {
 		return results[i].Score > results[j].Score
 	})
 
@@ -521,6 +521,14 @@ func (db *Database) SearchWithFuzzy(query string, options SearchOptions) []Searc
 	return db.limitResults(exactResults, options.Limit)
 }
 
+// fuzzyFindStable returns the fuzzy matches best first; equal scores keep the order of
+// the targets, so the ranking is a function of (pattern, targets) only.
+func fuzzyFindStable(pattern string, targets []string) fuzzy.Matches {
+	matches := fuzzy.FindNoSort(pattern, targets)
+	sort.SliceStable(matches, func(i, j int) bool { return matches[i].Score > matches[j].Score })
+	return matches
+}
+
 // limitResults applies limit to results slice
 func (db *Database) limitResults(results []SearchResult, limit int) []SearchResult {
 	if len(results) > limit {
@@ -544,7 +552,7 @@ func (db *Database) performFuzzySearch(query string, options SearchOptions) []Se
 	}
 
 	// Perform fuzzy search
-	matches := fuzzy.Find(query, targets)
+	matches := fuzzyFindStable(query, targets)
 
 	var results []SearchResult
 	for i, match := range matches {
@@ -603,7 +611,7 @@ func (db *Database) combineAndDeduplicateResults(exactResults, fuzzyResults []Se
 	}
 
 	// Sort by score
-	sort.Slice(combined, func(i, j int) bool {
+	sort.SliceStable(combined, func(i, j int) bool {
 		return combined[i].Score > combined[j].Score
 	})
 
@@ -649,8 +657,9 @@ func (db *Database) GetSuggestions(query string, maxSuggestions int) []string {
 		words = append(words, word)
 	}
 
-	// Find fuzzy matches for the query
-	matches := fuzzy.Find(query, words)
+	// Find fuzzy matches for the query (sorted word list: map iteration order is random)
+	sort.Strings(words)
+	matches := fuzzyFindStable(query, words)
 
 	var suggestions []string
 	for i, match := range matches {
@@ -763,7 +772,7 @@ func (db *Database) SearchWithNLP(query string, options SearchOptions) []SearchR
 	}
 
 	// Re-sort by updated scores
-	sort.Slice(results, func(i, j int) bool {
+	sort.SliceStable(results, func(i, j int) bool {
 		return results[i].Score > results[j].Score
 	})
 
